@@ -50,16 +50,17 @@ type NondetVal struct {
 }
 
 type Candidate struct {
-	Property string      `json:"property"`
-	Harness  string      `json:"harness"`
-	Kind     string      `json:"kind"` // assert | panic | deadlock | leak | untrusted-alloc
-	Label    string      `json:"label"`
-	Msg      string      `json:"msg"`
-	Site     string      `json:"site"`
-	Nondets  []NondetVal `json:"nondets"`
-	Trace    string      `json:"trace"`
-	Observes []string    `json:"observes,omitempty"`
-	Stack    []string    `json:"stack,omitempty"`
+	Property string           `json:"property"`
+	Harness  string           `json:"harness"`
+	Kind     string           `json:"kind"` // assert | panic | deadlock | leak | untrusted-alloc
+	Label    string           `json:"label"`
+	Msg      string           `json:"msg"`
+	Site     string           `json:"site"`
+	Nondets  []NondetVal      `json:"nondets"`
+	Trace    string           `json:"trace"`
+	Observes []string         `json:"observes,omitempty"`
+	Stack    []string         `json:"stack,omitempty"`
+	Params   map[string]int64 `json:"params,omitempty"`
 }
 
 func (c *Candidate) Key() string { return c.Kind + "|" + c.Label + "|" + c.Site }
@@ -114,6 +115,7 @@ type PathCtx struct {
 	bigSeq   int
 	uuidSeq  int
 	clock    int64 // virtual nanoseconds
+	clock0   int64
 	inInit   bool
 	wantFull bool
 
@@ -421,6 +423,7 @@ func (px *PathCtx) addCandidate(kind, label, msg, site string, extra *Term, stac
 		Nondets:  model,
 		Trace:    traceString(px.trace),
 		Observes: obs,
+		Params:   px.eng.cfg.Params,
 		Stack:    stack,
 	}
 	px.res.Candidates = append(px.res.Candidates, c)
